@@ -627,14 +627,17 @@ def binary_worker(job):
 
 
 SESSION_SCENARIOS = [('p2tr-script', s) for s in ('valid', 'annex', 'many-checks', 'many-checks-annex', 'wrong-key', 'extra-witness-item')] + \
-                    [('p2tr-key', s) for s in ('valid', 'annex', 'annex-unsigned', 'hashtype-single', 'wrong-key', 'wrong-amount')]
+                    [('p2tr-key', s) for s in ('valid', 'annex', 'annex-unsigned', 'hashtype-single', 'wrong-key', 'wrong-amount')] + \
+                    [(t, 'other-input-has-witness') for t in ('p2pk', 'p2pkh', 'p2sh-multisig')] + [(t, 'undefined-hashtype') for t in ('p2pkh', 'p2wpkh', 'p2wsh', 'p2sh-p2wpkh')] + \
+                    [('p2wpkh', 'wrong-amount'), ('p2wsh', 'valid'), ('p2sh-p2wsh', 'valid')]
 
 
 def session_worker(job):
     """Schnorr checks the way a user reaches them: a `--tx/--txin` session of a taproot spend.  The budget a tapscript starts with
     (serialized witness INCLUDING the annex + 50), the digest's annex / leaf commitments and the per-check charge are then set up by
-    the session code, not by this check's harness: the C03 scenario builder, driver and judge are reused for the single-input
-    taproot scenarios under the standard flags (initial weight, step trace and verdict against the reference)."""
+    the session code, not by this check's harness: the C03 scenario builder, driver and judge are reused for the taproot scenarios
+    (standard flags) and for legacy / segwit v0 inputs whose digest rules depend on the session's choice of signature version (another
+    input of the transaction carries a witness; undefined hash types under -STRICTENC) (initial weight, step trace and verdict against the reference)."""
     bindir, idx, n = job
     from checks import c03
     rng = sub_rng(PROP, 'sess', idx)
@@ -651,6 +654,8 @@ def session_worker(job):
                 continue
             sc['otype'], sc['sat'] = otype, sat
             sc['flags'], sc['flagmod'] = STANDARD, 'standard'
+            if sat == 'undefined-hashtype':
+                sc['flags'], sc['flagmod'] = STANDARD & ~F["STRICTENC"], '-STRICTENC'
             sc['select'] = -1 if rng.random() < 0.5 else sc['idx']
             sc['id'] = 's%d.%d' % (idx, i)
             scs.append(sc)
